@@ -49,6 +49,8 @@ def config(name):
     P = 1
     if base == 'sdc':
         pass
+    elif base == 'sdcs':
+        del desc['sweeper_params']['QI']  # the sweeper's default preconditioner
     elif base == 'lobatto':
         desc['sweeper_params']['quad_type'] = 'LOBATTO'
     elif base == 'mlsdc':
@@ -87,14 +89,40 @@ def config(name):
     return P, cp, desc, dt
 
 
-FIXED = ['sdc', 'lobatto', 'mlsdc', 'pfasst', 'mssdc', 'rk', 'hooks', 'sdc/random', 'pfasst/random']
+FIXED = ['sdc', 'sdcs', 'lobatto', 'mlsdc', 'pfasst', 'mssdc', 'rk', 'hooks', 'sdc/random', 'pfasst/random']
 ALL = FIXED + ['adaptive']
 
 
-def build(name):
+SHARED_FAMILY = ['sdc', 'sdcs', 'lobatto', 'rk']
+NESTED = ('problem_params', 'sweeper_params', 'level_params', 'step_params')
+
+
+def build(name, shared=None):
+    """shared: a dict carried along one sequence. All controllers of the sequence are then built from ONE description
+    object that the 'user' edits in place between constructions: top-level entries are assigned, the nested parameter
+    dictionaries keep their identity, the user removes the keys the previous configuration had set and sets the new
+    ones (keys the user never set are left alone - exactly what a library that writes into the user's dictionary leaks)."""
     from pySDC.implementations.controller_classes.controller_nonMPI import controller_nonMPI
 
     P, cp, desc, dt = config(name)
+    if shared is not None:
+        D = shared.setdefault('desc', {})
+        prev = shared.get('user_keys', {})
+        for k in list(D):
+            if k not in desc and k not in NESTED and k in shared.get('top_keys', ()):
+                del D[k]
+        for k, v in desc.items():
+            if k in NESTED:
+                nd = D.setdefault(k, {})
+                for old in prev.get(k, ()):
+                    if old not in v:
+                        nd.pop(old, None)
+                nd.update(v)
+            else:
+                D[k] = v
+        shared['user_keys'] = {k: set(desc[k]) for k in NESTED if k in desc}
+        shared['top_keys'] = set(desc)
+        desc = D
     return controller_nonMPI(num_procs=P, controller_params=cp, description=desc), P, dt
 
 
@@ -201,8 +229,17 @@ def sequences(depth, names):
                     rec(seq + [('split_fresh', i, k)], live)
 
     rec([], [])
+    # one description object edited in place between the constructions of two differently configured controllers
+    fam = [n for n in SHARED_FAMILY if n in names or n == 'sdcs']
+    for a in fam:
+        for b in fam:
+            if a == b:
+                continue
+            for tail in ([('run', 1)], [('run', 0)], [('run', 0), ('run', 1)], [('run', 1), ('run', 0)]):
+                if 2 + len(tail) <= max(depth, 3):
+                    seqs.append([('new_shared', a), ('new_shared', b)] + list(tail))
     # only sequences that end in an observation are interesting; drop those ending with 'new'
-    return [s for s in seqs if s[-1][0] != 'new']
+    return [s for s in seqs if not s[-1][0].startswith('new')]
 
 
 def execute(seq):
@@ -210,9 +247,13 @@ def execute(seq):
     common.silence_logging()
     live = []
     obs = []
+    shared = {}
     for idx, op in enumerate(seq):
         if op[0] == 'new':
             ctrl, P, dt = build(op[1])
+            live.append((op[1], ctrl))
+        elif op[0] == 'new_shared':
+            ctrl, P, dt = build(op[1], shared=shared)
             live.append((op[1], ctrl))
         elif op[0] == 'run':
             n, c = live[op[1]]
@@ -245,9 +286,9 @@ def classify(seq, idx, how):
     prior_runs_same_ctrl = 0
     target = seq[idx][1]
     for op in seq[:idx]:
-        if op[0] != 'new' and op[1] == target:
+        if not op[0].startswith('new') and op[1] == target:
             prior_runs_same_ctrl += 1
-    other_ctrl_activity = any(op[0] != 'new' and op[1] != target for op in seq[:idx]) or sum(1 for op in seq[:idx] if op[0] == 'new') > 1
+    other_ctrl_activity = any(not op[0].startswith('new') and op[1] != target for op in seq[:idx]) or sum(1 for op in seq[:idx] if op[0].startswith('new')) > 1
     if how.startswith('split'):
         clause = how.split('@')[0]
     elif prior_runs_same_ctrl:
@@ -290,7 +331,7 @@ def run(rep, tier):
             clause = classify(seq, idx, how)
             if n not in FIXED and clause != 'fresh_controller' and clause != 'two_controllers_interfere':
                 continue  # re-run / split clauses are stated for fixed step sizes only
-            if n not in FIXED and any(op[0] != 'new' and op[1] == seq[idx][1] for op in seq[:idx]):
+            if n not in FIXED and any(not op[0].startswith('new') and op[1] == seq[idx][1] for op in seq[:idx]):
                 continue
             if _tup(dg) != expected(refs[n], how):
                 sig = {'kind': 'digest_differs', 'clause': clause, 'config': n}
